@@ -208,7 +208,9 @@ fn stability_violation(a: &[Vec<f64>], inv: &[Vec<f64>], tol: f64) -> Option<(St
         }
         maj += col.sqrt();
     }
-    let slack = 1e-9 * tol.abs() + 4.0 * (n * n) as f64 * EPS * maj + 1e-290;
+    // rigorous: each entry of inverse*A - I is an n-term dot product minus 0/1 (error <= (n+1) eps
+    // * sum|inv||A|), then squares, an n-term sum and a square root per column; factor 2 safety
+    let slack = 1e-9 * tol.abs() + 2.0 * (n + 3) as f64 * EPS * maj + 1e-290;
     let lim = q(tol.max(-1e300)) + q(if slack.is_finite() { slack } else { f64::MAX });
     if lower > lim {
         let d = qf(&lower);
@@ -304,7 +306,7 @@ fn matrix_case(item: u64, rng: &mut Rng, acc: &mut Acc) {
                             }
                             maj += col.sqrt();
                         }
-                        let slack = 4.0 * (n * n) as f64 * EPS * maj;
+                        let slack = 2.0 * (n + 3) as f64 * EPS * maj;
                         acc.max("row_column_norm_gap_over_slack", (dcol - drow) / slack);
                     }
                     let mut tols = vec![dcol * 0.5, dcol * 0.9];
@@ -434,7 +436,7 @@ pub fn run(ctx: &Ctx) -> i32 {
          plus whole samples with the test on at corner points (xi down to 0 and 5e-324): Ok => no NaN in the decomposition. \
          distinct = distinct (matrix, tol) bit patterns with n>=2, or distinct (graph, x-point)",
     )
-    .assume("slack = 1e-9*tol + 4 n^2 eps || |inverse| |A| + I ||_2,1 covers the rounding of the code's own norm evaluation")
+    .assume("slack = 1e-9*tol + 2(n+3) eps || |inverse| |A| + I ||_2,1 covers the rounding of the code's own norm evaluation")
     .min(1000);
     finish(ctx, acc, fin)
 }
